@@ -121,6 +121,24 @@ type Script struct {
 
 var base = time.Unix(1_700_000_000, 0)
 
+// scrape reads the used-quota gauges of both quotas the way the metrics observer does on every scrape
+// (quotaResource.observeQuotaUsed -> GetQuotaGroupsCounters); the values are not part of any verdict, the read is
+// an operation that must leave the engine's state alone.
+func scrape(eng *c01eng.Engine) string {
+	for _, id := range []string{"fw", "cq"} {
+		q, err := eng.S.VerifQuota(id)
+		if err != nil {
+			return "error:" + err.Error()
+		}
+		c, ok := q.(interface{ GetQuotaGroupsCounters() map[string]int64 })
+		if !ok {
+			return fmt.Sprintf("error:quota %s (%T) has no GetQuotaGroupsCounters", id, q)
+		}
+		c.GetQuotaGroupsCounters()
+	}
+	return "ok"
+}
+
 func outcome(res c01eng.ReqResult) string {
 	if res.Err != "" {
 		return "error:" + res.Err
@@ -283,6 +301,12 @@ func main() {
 							case <-time.After(20 * time.Second):
 								vh.Die("sched: request %d never reached limiter.after_inc", i)
 							}
+						case "scrape":
+							id := uid.Add(1)
+							b := tr.Stamp()
+							out := scrape(eng)
+							tr.AddAt(b, vh.Ev{"ev": "begin", "id": id, "op": "scrape", "out": out})
+							tr.Add(vh.Ev{"ev": "end", "id": id})
 						case "allowed":
 							i := int(st[1].(float64))
 							r := runs[i]
@@ -360,6 +384,11 @@ func main() {
 										vh.Die("response: %s", msg)
 									}
 									tr.AddAt(b, vh.Ev{"ev": "begin", "id": id, "op": "endcq", "txn": txn})
+									tr.Add(vh.Ev{"ev": "end", "id": id})
+								case "scrape":
+									b := tr.Stamp()
+									out := scrape(eng)
+									tr.AddAt(b, vh.Ev{"ev": "begin", "id": id, "op": "scrape", "out": out})
 									tr.Add(vh.Ev{"ev": "end", "id": id})
 								case "metrics":
 									b := tr.Stamp()
